@@ -8,13 +8,16 @@ EXTENDS Lexer, Tree, Json, SequencesExt
 
 CONSTANTS OutFile, Shard, NShards
 
+\* the characters that a token contributes to the text of a literal (after escape processing)
 TokText(t) == CASE t = "Q" -> "\"" [] t = "PL" -> "%(" [] t = "PR" -> "%)" [] t = "L" -> "(" [] t = "R" -> ")" [] t = "X" -> "1"
+                [] t = "N" -> "\n" [] t = "BQ" -> "\"" [] t = "BS" -> "\\"
 
 RECURSIVE ItemsTree(_, _, _), FmtChildren(_, _, _)
 \* items from position i up to a closing parenthesis or the end: [t, i]
 ItemsTree(w, i, acc) ==
     IF i > Len(w) \/ w[i] = "R" THEN [t |-> acc, i |-> i]
     ELSE CASE w[i] = "X" -> ItemsTree(w, i + 1, CreateCat("CAT", acc, Node("CONST", <<"1">>, 1, <<>>)))
+           [] w[i] = "N" -> ItemsTree(w, i + 1, acc)
            [] w[i] = "L" -> LET inner == ItemsTree(w, i + 1, NIL) IN
                             ItemsTree(w, inner.i + 1, CreateCat("CAT", acc, MaybeNop(inner.t)))
            [] w[i] = "Q" -> LET s == LexStr(w, i + 1, FALSE, <<>>, <<>>) IN
@@ -22,7 +25,7 @@ ItemsTree(w, i, acc) ==
 \* flush_str before every splice and at the end; literal tokens are followed by one space
 FmtChildren(parts, j, cur) ==
     IF j > Len(parts) THEN <<Node("STR", cur, 0, <<>>)>>
-    ELSE IF "lit" \in DOMAIN parts[j] THEN FmtChildren(parts, j + 1, cur \o <<TokText(parts[j].lit), " ">>)
+    ELSE IF "lit" \in DOMAIN parts[j] THEN FmtChildren(parts, j + 1, cur \o (IF parts[j].lit = "BS" THEN <<TokText("BS")>> ELSE <<TokText(parts[j].lit), " ">>))
     ELSE <<Node("STR", cur, 0, <<>>), MaybeNop(ItemsTree(parts[j].body, 1, NIL).t)>> \o FmtChildren(parts, j + 1, <<" ">>)
 
 TreeOfWord(w) == MaybeNop(ItemsTree(w, 1, NIL).t)
@@ -34,5 +37,8 @@ ASSUME MechanismIsTheLanguage
 \* every sequence of the language, and one in 37 of the others
 Kept == SelectSeq(Mine, LAMBDA r: InLanguage(r.w) \/ r.j % 37 = 0)
 ASSUME PrintT(<<"LEXGEN", Cardinality(All), Len(Kept)>>)
-ASSUME ndJsonSerialize(OutFile, [j \in 1..Len(Kept) |-> Vec(Kept[j].w)])
+\* and the witnesses beyond the bound that this alphabet can spell (shard 0)
+Extra == IF Shard = 0 THEN SetToSeq({w \in Witnesses : \A i \in 1..Len(w) : w[i] \in Tok}) ELSE <<>>
+ASSUME WitnessesOK
+ASSUME ndJsonSerialize(OutFile, [j \in 1..Len(Kept) |-> Vec(Kept[j].w)] \o [j \in 1..Len(Extra) |-> Vec(Extra[j])])
 =============================================================================
